@@ -8,14 +8,14 @@ CHECKS = {
              text="Every obligation (to_Matrix = independent spec, homomorphism, two-sided inverse, identity and neutrality, associativity, from_Matrix section) is an exact identity decided for all inputs of the group's sort on every control path; direct products for a finite list of configurations.",
              note=A_GRAPH + "; lemma L-SO3 (DCM = R(q)); MRP singularity and Euler gimbal band excluded by requires", ref="5/C01"),
  "C02": dict(cat="proof", tech="contract-based deductive: exp traced from the real code; ODE characterisation (ray derivative = hat(y) Phi, Phi(0)=I) decided as ring identities (ALG) + lemma L-ODE",
-             text="For every algebra/group pair Phi(y)=to_Matrix(exp(y)) satisfies the defining ODE of the matrix exponential along every ray and Phi(0)=I exactly; exp(-y)exp(y)=I and the one-parameter composition law are proved directly. All for every y on the closed-form cell (all angles > 0 incl. beyond pi, both MRP shadow branches); the Taylor cell is bounded in C06.",
-             note=A_GRAPH + "; CasADi forward AD; lemma L-ODE (uniqueness for linear ODEs) not machine-checked; Taylor cell deferred to C06", ref="5/C02"),
+             text="For every algebra/group pair Phi(y)=to_Matrix(exp(y)) satisfies the defining ODE of the matrix exponential along every ray and Phi(0)=I exactly; exp(-y)exp(y)=I and the one-parameter composition law are proved directly. All for every y on the closed-form cell (all angles > 0 incl. beyond pi, both MRP shadow branches); on the Taylor cell the real-arithmetic deviation from the exact function is bounded rigorously (<= 1e-11) by interval arithmetic over the coefficient Jacobian times the truncation bounds.",
+             note=A_GRAPH + "; CasADi forward AD; lemma L-ODE (uniqueness for linear ODEs) not machine-checked; floating-point rounding only in C06 (bounded)", ref="5/C02"),
  "C04": dict(cat="proof", tech="contract-based deductive: Ad/ad/bracket traced from the real code, conjugation/commutator/Jacobi/homomorphism identities decided by ring normal forms (ALG); Ad_exp = expm(ad) via the ODE characterisation",
              text="Every obligation is an exact identity for all group/algebra elements of the sort: Ad_X y = vee(M(X) hat(y) M(X^-1)), ad_x y = [x,y] = vee(commutator), antisymmetry, Jacobi, Ad homomorphism and inverse, square n x n shapes, Ad(exp(ty)) solves Phi' = ad_y Phi with Phi(0)=I.",
-             note=A_GRAPH + "; CasADi forward AD; lemma L-ODE; closed-form cell for expad (Taylor cell in C06); direct-product Ad/bracket out of scope (asserted to raise)", ref="5/C04"),
+             note=A_GRAPH + "; CasADi forward AD; lemma L-ODE; closed-form cell for expad; Taylor cell of Ad(exp) bounded rigorously in real arithmetic (1e-11); direct-product Ad/bracket out of scope (asserted to raise)", ref="5/C04"),
  "C05": dict(cat="proof", tech="contract-based deductive: differential of to_Matrix(exp(y)) in a symbolic direction compared with hat(J d) Phi / Phi hat(J d) as ring identities (ALG)",
              text="dexpL/dexpR are literally the property's statement (derivative of exp equals the Jacobian) for a symbolic direction, for so(3), se(3), se_2(3); inverse Jacobians, J_l = Ad_exp J_r = J_r(-x), Q blocks, and the quaternion/MRP kinematic Jacobians (R' = [w]x R, R' = R [w]x, q.q' = 0) are exact identities for all inputs.",
-             note=A_GRAPH + "; CasADi forward AD; closed-form cell (Taylor cell in C06); requires 0 < theta < 2 pi for the inverse coefficients", ref="5/C05"),
+             note=A_GRAPH + "; CasADi forward AD; closed-form cell exact, Taylor cell bounded rigorously in real arithmetic (<= 1e-11, translations in [-1,1]); requires 0 < theta < 2 pi for the inverse coefficients", ref="5/C05"),
  "C03": dict(cat="proof", tech="contract-based deductive: log/exp traced from the real code; round trips decided as ring identities with inverse-trig angle atoms and range-guarded collapsing rules (ALG); principal-angle bound by SMT (QF_NRA) with stated acos/atan axioms",
              text="rt1 (exp(log X) = X as matrices) for every group and all inputs of its sort; rt2 (log(exp x) = x) under the requires angle < pi for SO(2), SE(2), R^n, SO(3) in quaternion/MRP/DCM form and SE(3); principal angle <= pi for canonical inputs incl. quaternions of either sign; Euler form by call-site (modular) obligations on top of the DCM contracts.",
              note=A_GRAPH + "; lemmas L-ROTVEC, L-SO3; transcendental range/monotonicity axioms for acos/asin/atan stated to the SMT solver; closed-form cell (Taylor cell in C06); rt2 not decided for SE_2(3)", ref="5/C03"),
@@ -36,7 +36,7 @@ CHECKS = {
              note="A-GRAPH; real arithmetic; symmetric-frame and positivity requires listed in the evidence", ref="5/C16"),
  "C08": dict(cat="proof", tech="contract-based deductive: strapdown_ins_propagate / SE23 exp_mixed / calculate_N traced from the real code; the flow ODE in dt, initial value, semigroup law and unit norm decided as ring identities (ALG) + lemma L-ODE",
              text="d/d(dt) of the returned state equals the IMU kinematics evaluated at the returned state for every initial state, specific force, gravity, dt > 0 and rate (closed-form cell), x(0) = x0 exactly, zero-rate motion exact for every dt, two steps equal one step of the summed duration, |q| stays 1: hence the propagation is the exact flow, with no discretisation error.",
-             note="A-GRAPH; real arithmetic; CasADi symbolic differentiation; lemma L-ODE; small-angle cell deferred to C06", ref="5/C08"),
+             note="A-GRAPH; real arithmetic; CasADi symbolic differentiation; lemma L-ODE; small-angle cell bounded rigorously in real arithmetic (<= 1e-11 for |w| <= 3.5 rad/s, dt <= 20 ms, |a| <= 20)", ref="5/C08"),
  "C14": dict(cat="proof", tech="contract-based deductive: set-point generators traced from the real code with SO3Quat.from_Matrix/from_Euler replaced by their contracts at the call sites; orthonormality, determinant, alignment, thrust magnitude, flatness rates and Euler's equation decided as ring identities with norm (root) atoms per branch (ALG) + SMT for signs",
              text="Nominal branches: the matrix handed to from_Matrix is a proper rotation whose z axis is the normalised demanded force and whose y axis is perpendicular to the heading, nT = |force|; mr_ref_traj rates equal the rotation rate of the thrust axis along the trajectory and the moment satisfies Euler's equation; f_ref agrees with mr_ref_traj. Degenerate branches are explored exhaustively: the documented fallbacks are NOT proper rotations (known findings, listed).",
              note="A-GRAPH; real arithmetic; callee contracts from C07; CasADi AD; se23 outer loop with identity gain shaping (feed-forward free)", ref="5/C14"),
